@@ -20,7 +20,11 @@ Three parties are compared on the same cases:
     from other threads (they queue), then released: every packet on the wire must reference-decode to exactly one
     message with no trailing bytes, each request once; and a packet whose payload is a message followed by a second
     message / garbage / a forged reply given to a real serving Connection: only the first message is acted on (as the
-    model's load, theorem one_message_per_packet).
+    model's load, theorem one_message_per_packet).  Two independent connections: channel A's send pre-empted before
+    every bytecode instruction by a complete send on channel B (C05's instruction-level runner, judged here by the
+    reference decoder): every packet's header must describe its own payload.
+(e) every builtin exception class raised without arguments by a real serving Connection (one request each): every
+    response must be a published exception message (EXC_STOP_ITERATION only for StopIteration, else the tuple).
 (c) conversations: a real Connection talks to refcodec's peer and exercises EVERY published handler 1..20 (ping,
     close, getroot, getattr, delattr, setattr, call, callattr, repr, str, cmp, hash, dir, pickle (refused), del,
     inspect, buffiter, old slicing, leaving a `with proxy:` block (CTXEXIT), isinstance across the connection), plus
@@ -895,6 +899,10 @@ def make_service():
         def exposed_kw(self, a, b=0, c=0):
             return (a, b, c)
 
+        def exposed_raise_builtin(self, name):
+            import builtins
+            raise getattr(builtins, name)()
+
         def exposed_custom(self):
             e = CustomErr("m", 3)
             e.code = 7
@@ -1141,6 +1149,115 @@ def run_server_conversation(seed, idx):
                 handlers=sorted(answered | ({R.HANDLERS["CLOSE"]} if conn.closed else set())))
 
 
+def builtin_exception_names():
+    """every exception class of the builtins module (KeyboardInterrupt excepted: the default configuration re-raises it
+    locally instead of answering)"""
+    import builtins
+    return sorted(n for n, o in vars(builtins).items()
+                  if isinstance(o, type) and issubclass(o, BaseException) and n != "KeyboardInterrupt")
+
+
+def check_all_builtin_exceptions():
+    """The reference peer asks a real Connection to raise EVERY builtin exception class, without arguments, one request
+    each.  Every response must be a published exception message: the payload is EXC_STOP_ITERATION (only for
+    StopIteration) or the tuple ((module, name), args, attrs, traceback) — checked by the reference peer's parser.
+    Returns (problems, frames, per-class outcome)."""
+    _rpyc, _b, channel, _c, _p, _s = rp()
+    R = refcodec
+    st = make_loop_stream()
+    conn = make_service()._connect(channel.Channel(st, True), dict(SERVER_CONFIG))
+    peer = R.RefPeer()
+    problems, frames, outcome = [], [], {}
+    consumed = 0
+    seq0, pkt = peer.compose("GETROOT", R.box_value(()))
+    st.inbox += pkt
+    try:
+        while st.inbox:
+            conn.serve(0)
+        peer.feed(bytes(st.out))
+        consumed = len(st.out)
+        root = peer.pending[seq0][2][1]
+    except Exception as ex:  # noqa
+        return ["getroot failed: %s%r" % (type(ex).__name__, ex.args[:1])], [], {}
+    for name in builtin_exception_names():
+        seq, pkt = peer.compose("CALLATTR", R.box_tuple([R.box_local(root), R.box_value("raise_builtin"),
+                                                         R.box_value((name,)), R.box_value(())]))
+        st.inbox += pkt
+        try:
+            while st.inbox and not conn.closed:
+                conn.serve(0)
+        except Exception as ex:  # noqa
+            problems.append("raising %s(): serving raised %s%r" % (name, type(ex).__name__, ex.args[:1]))
+            break
+        back = bytes(st.out[consumed:])
+        consumed = len(st.out)
+        peer.feed(back)
+        if peer.problems:
+            problems.append("raising %s(): the response is not a published message: %s" % (name, "; ".join(peer.problems)[:300]))
+            break
+        msg = peer.pending.pop(seq, None)
+        if msg is None or msg[0] != "exception":
+            problems.append("raising %s(): answered with %r" % (name, msg and msg[:2]))
+            continue
+        d = msg[2]
+        if d == R.EXC_STOP_ITERATION:
+            outcome[name] = "marker"
+            if name != "StopIteration":
+                problems.append("raising %s(): the payload is the StopIteration marker" % name)
+        elif type(d) is tuple:
+            outcome[name] = "%s.%s" % d[0]
+            if name == "StopIteration":
+                problems.append("raising StopIteration(): did not travel as EXC_STOP_ITERATION")
+            elif d[0] not in (("builtins", getattr(__import__("builtins"), name).__name__),   # EnvironmentError is OSError
+                              ("builtins", "TypeError")):                            # some classes need arguments
+                problems.append("raising %s(): the payload names %r" % (name, d[0]))
+        else:
+            outcome[name] = "string"
+    audit_real_frames(bytes(st.out), True, problems, frames)
+    try:
+        conn.close()
+    except Exception:  # noqa
+        pass
+    return problems, frames, outcome
+
+
+def check_shared_header(size_a, size_b, comp_a, comp_b, chunk=64000):
+    """Two independent Channels (two connections).  Channel A's `send` is pre-empted before EVERY bytecode instruction by
+    a complete `send` on channel B (C05's instruction-level runner); every packet either stream carries is judged by the
+    independent reference decoder: its length field and flag must describe its own payload."""
+    from props.c05 import run_stepped
+    channel = rp()[2]
+    sa, sb = CaptureStream(chunk), CaptureStream(chunk)
+    ca, cb = channel.Channel(sa, comp_a), channel.Channel(sb, comp_b)
+    da = bytes((i * 13 + 1) % 17 for i in range(size_a))
+    db = bytes((i * 7 + 5) % 19 for i in range(size_b))
+    steps = [0]
+
+    def on_step():
+        steps[0] += 1
+        cb.send(db)
+    problems = []
+    try:
+        run_stepped(lambda: ca.send(da), [channel.Channel.send.__code__], on_step)
+    except Exception as ex:  # noqa
+        problems.append("send raised %s%r" % (type(ex).__name__, ex.args[:1]))
+    for who, st_, want, n in (("A", sa, da, 1), ("B", sb, db, steps[0])):
+        wire = b"".join(st_.writes)
+        try:
+            pk = refcodec.packets(wire)
+        except (refcodec.FormatError, zlib.error) as ex:
+            problems.append("channel %s's byte stream is not a sequence of published packets (a header that does not describe "
+                            "its payload?): %s; first header %s, %d bytes of %d-byte data sent" % (who, ex, wire[:5].hex(), len(wire), len(want)))
+            continue
+        if len(pk) != n or any(d != want for _f, _p, d in pk):
+            problems.append("channel %s: %d packets, expected %d carrying its own data" % (who, len(pk), n))
+    return problems, steps[0]
+
+
+SHARED_HEADER_CASES = [(10, 20, False, False), (0, 3001, True, True), (3001, 7, True, False), (300, 3001, True, False),
+                       (70000, 5, False, False)]
+
+
 def run_conversation(direction, seed, idx):
     try:
         if direction == "client":
@@ -1311,6 +1428,16 @@ def correspondence(ctx):
         if probs:
             disagree("queued-sends", "queued=%d big_first=%s compress=%s" % (n_q, big, comp), "; ".join(probs)[:400],
                      "%d packets, one message each" % (n_q + 1))
+    # (d') two connections: a send pre-empted at every instruction by a send on the other connection
+    for sa_, sb_, ca_, cb_ in SHARED_HEADER_CASES:
+        c.evaluations += 1
+        probs, nsteps = check_shared_header(sa_, sb_, ca_, cb_)
+        c.count("two-channels-preempted-send:%s" % ("ok" if not probs else "PROBLEM"), 1)
+        c.count("two-channels-preemption-points", nsteps)
+        c.signatures.add("twochan:%d:%d:%s:%s" % (sa_, sb_, ca_, cb_))
+        if probs:
+            disagree("two-channel-send", "A=%d bytes B=%d bytes compress=%s/%s" % (sa_, sb_, ca_, cb_), "; ".join(probs)[:400],
+                     "every packet's header describes its own payload")
     for kind in TRAILING_KINDS:
         c.evaluations += 1
         probs, payload, m1 = check_trailing_in_packet(kind)
@@ -1326,6 +1453,22 @@ def correspondence(ctx):
                               ratio=ratios.get("blank:%dKiB:level9" % (8 * MIB // 1024))))
     ctx.log("packets done: %d op lines so far" % len(lines))
     # (c) conversations
+    # every builtin exception class raised without arguments by the real side
+    probs, exc_frames, exc_outcome = check_all_builtin_exceptions()
+    c.evaluations += len(exc_outcome)
+    c.count("builtin-exception-classes-raised", len(exc_outcome))
+    c.count("builtin-exception-classes:%s" % ("ok" if not probs else "PROBLEM"))
+    c.extra["builtin_exception_payloads"] = dict(
+        marker=sorted(k for k, v in exc_outcome.items() if v == "marker"),
+        as_type_error=sorted(k for k, v in exc_outcome.items() if v == "builtins.TypeError" and k != "TypeError"),
+        tuples=len([v for v in exc_outcome.values() if v not in ("marker", "string")]))
+    if probs:
+        disagree("builtin-exceptions", "every builtin exception class raised without arguments", "; ".join(probs)[:500],
+                 "EXC_STOP_ITERATION for StopIteration, the published tuple for every other class")
+    for kind, val, data in exc_frames:
+        if kind == "exception":
+            t = to_text_ordered(val)
+            add("spec msg " + t, "msg", t, "ok %s %s layout-ok" % (kind, data.hex()), "excmsg:%s" % (val[2][0][1] if type(val[2]) is tuple else val[2],))
     n_conv = ctx.budget(100, 1000)
     conv_forms = {}
     exercised = {"client": {}, "server": {}}
@@ -1450,6 +1593,11 @@ def oracle_search(ctx, corr, broken):
             msg, _ratio = check_big_recv(kind, n, level)
             if msg and "frame:recv-large" not in known:
                 return dict(kind="input", part="recv-large", payload=kind, size=n, level=level), msg, "frame:recv-large"
+        for sa_, sb_, ca_, cb_ in SHARED_HEADER_CASES:
+            probs, _n = check_shared_header(sa_, sb_, ca_, cb_)
+            if probs and "packet:two-channels" not in known:
+                return (dict(kind="schedule", part="two-channel-send", size_a=sa_, size_b=sb_, compress_a=ca_, compress_b=cb_),
+                        "; ".join(probs)[:600], "packet:two-channels")
         for n_q, big, comp in QUEUED_CASES:
             probs, _st = check_queued_sends(n_q, big, comp)
             if probs and "packet:queued-sends" not in known:
@@ -1467,6 +1615,9 @@ def oracle_search(ctx, corr, broken):
         return None
 
     def conversation_failures(count):
+        probs, _f, _o = check_all_builtin_exceptions()
+        if probs and "conversation:exceptions" not in known:
+            return dict(kind="history", part="builtin-exceptions"), "; ".join(probs)[:600], "conversation:exceptions"
         for direction in ("client", "server"):
             for idx in range(count):
                 msg, ops = oracle_conversation(direction, ctx.seed, idx)
@@ -1495,12 +1646,12 @@ def oracle_search(ctx, corr, broken):
             f = value_failure(v)
             if f:
                 return f
-    if any(d.get("op", "").startswith(("send", "recv", "ping-large", "queued", "trailing", "model:frame", "model:recv"))
+    if any(d.get("op", "").startswith(("send", "recv", "ping-large", "queued", "trailing", "two-channel", "model:frame", "model:recv"))
            for d in corr.disagreements):
         f = frame_failures()
         if f:
             return f
-    if any(d.get("op", "") in ("conversation", "model:msg") for d in corr.disagreements):
+    if any(d.get("op", "") in ("conversation", "model:msg", "builtin-exceptions") for d in corr.disagreements):
         f = conversation_failures(40)
         if f:
             return f
@@ -1553,6 +1704,14 @@ def replay(case):
     elif part == "recv":
         data = bytes((i * 31 + case["size"]) % 7 for i in range(case["size"]))
         out["oracle"] = check_recv_real(data, case["level"], case["force"]) or "holds"
+    elif part == "two-channel-send":
+        probs, nsteps = check_shared_header(case["size_a"], case["size_b"], case["compress_a"], case["compress_b"])
+        out["implementation"] = dict(preemption_points=nsteps, problems=probs)
+        out["oracle"] = "; ".join(probs) or "holds"
+    elif part == "builtin-exceptions":
+        probs, _frames, outcome = check_all_builtin_exceptions()
+        out["implementation"] = dict(classes=len(outcome), problems=probs)
+        out["oracle"] = "; ".join(probs) or "holds"
     elif part == "queued-sends":
         probs, stats = check_queued_sends(case["queued"], case["big_first"], case["compress"])
         out["implementation"] = dict(wire_bytes=stats[0] if stats else None, packets=stats[1] if stats else None, problems=probs)
